@@ -92,7 +92,7 @@ def mixed_case(rng, n):
     return ''.join(c.upper() if rng.random() < 0.5 else c.lower() for c in n)
 
 
-def gen_ops(rng, store, defaults, *, n_ops, conf_events, aliasing, options=None, case_mix=False):
+def gen_ops(rng, store, defaults, *, n_ops, conf_events, aliasing, options=None, case_mix=False, busy_events=False):
     """adaptive: a live implementation tells which list operations are possible"""
     case = {'options': options, 'store': store, 'defaults': defaults, 'ops': []}
     tab = cfg.Table(case)
@@ -211,6 +211,11 @@ def gen_ops(rng, store, defaults, *, n_ops, conf_events, aliasing, options=None,
             # another controller changes options that have no local change pending or outstanding
             busy = set(im.cfg.unsaved.keys()) | set().union(*sent_names) if sent_names else set(im.cfg.unsaved.keys())
             free = [n for n in tab.names if n not in busy and n not in frozen]
+            if busy_events:
+                # (outside H) also list options with a local in-place edit pending — not yet sent: the local edit stays what the next save
+                # sends, whatever Tor announced meanwhile
+                unsent = set().union(*sent_names) if sent_names else set()
+                free += [n for n in tab.lists if n in busy and n not in unsent and n not in frozen and n not in pending_assigned and n not in free]
             if not free:
                 continue
             changes = []
